@@ -17,8 +17,12 @@ from pathlib import Path
 HERE = Path(__file__).resolve().parent.parent
 src, prop, name, needs = Path(sys.argv[1]), sys.argv[2], sys.argv[3], sys.argv[4]
 history = sys.argv[5] if len(sys.argv) > 5 else ""
-out = subprocess.run([str(HERE / "tools/verify_seed.sh"), str(src), prop, name], capture_output=True, text=True).stdout
-print(out)
+import os
+if os.environ.get("VERIFY_LOG"):  # verdict of a tools/verify_seed.sh run made just before
+    out = Path(os.environ["VERIFY_LOG"]).read_text()
+else:
+    out = subprocess.run([str(HERE / "tools/verify_seed.sh"), str(src), prop, name], capture_output=True, text=True).stdout
+print(out[:1500])
 tests = re.search(r"tests_with_change: (.*)", out)
 demo = re.search(r"demo_with_change_exit=(\d+) demo_without_change_exit=(\d+)", out)
 chk = re.search(r"check_exit=(\d+)", out)
